@@ -237,19 +237,20 @@ func inProcessHistories(run *core.Run, scratch string, p proj, tier string) {
 	if tier == "thorough" {
 		depth = 4
 	}
-	mk := func(seq []int) scen.Job {
+	mk := func(tag string, seq []int) scen.Job {
 		j := scen.Job{Dir: dir, Config: "./gleece.config.json", Timeout: 300}
 		for i, li := range seq {
 			rj := letters[li]
 			rj.Key = fmt.Sprintf("%d:%s", i, rj.Key)
-			rj.Out = fmt.Sprintf("./dist/h/step%d/gleece.routes.go", i)
+			// the histories run concurrently in one project directory: every history writes below a directory of its own
+			rj.Out = fmt.Sprintf("./dist/h/%s/step%d/gleece.routes.go", tag, i)
 			j.Routes = append(j.Routes, rj)
 		}
 		return j
 	}
 	fresh := make([]string, len(letters))
 	for i := range letters {
-		r := scen.RunJob(mk([]int{i}))
+		r := scen.RunJob(mk(fmt.Sprintf("fresh%d", i), []int{i}))
 		a := r.Routes[fmt.Sprintf("0:%s", letters[i].Key)]
 		if r.Crashed != "" || a.Err != "" || a.Panic != "" || a.Content == "" {
 			core.Harness("in-process histories: configuration %s does not generate in a fresh process: %s %s %s", letters[i].Key, r.Crashed, a.Err, a.Panic)
@@ -269,7 +270,7 @@ func inProcessHistories(run *core.Run, scratch string, p proj, tier string) {
 	}
 	rec(nil)
 	results := make([]*scen.Result, len(seqs))
-	scen.Pool(0, len(seqs), func(i int) { results[i] = scen.RunJob(mk(seqs[i])) })
+	scen.Pool(0, len(seqs), func(i int) { results[i] = scen.RunJob(mk(fmt.Sprintf("seq%d", i), seqs[i])) })
 	for si, seq := range seqs {
 		r := results[si]
 		run.AddStates(1)
@@ -414,6 +415,40 @@ func Main(tier, replay string) {
 				run.Report(core.Violation{Oracle: "date-comment-is-the-only-difference", Features: p.Feat, What: "the spec changes with skipGenerateDateComment: " + diffLines(base.Spec, res.Files["dist/openapi.json"]), Case: map[string]any{"project": p.Name, "choices": map[string]int{}}})
 			case len(extra) != 1 || !dateLine.MatchString(extra[0]) || len(linesOnlyIn(base.Routes, res.Files["dist/routes/gleece.routes.go"])) != 0:
 				run.Report(core.Violation{Oracle: "date-comment-is-the-only-difference", Features: p.Feat, What: fmt.Sprintf("routes file with the date comment differs from the one without it by more than one 'Generated Date' line: added %q, removed %q", extra, linesOnlyIn(base.Routes, res.Files["dist/routes/gleece.routes.go"])), Case: map[string]any{"project": p.Name, "choices": map[string]int{}}})
+			}
+		}
+		// what already lies at the output paths is no input: the same project and configuration over a spec that is the
+		// same JSON document in other bytes (minified, re-indented) and over a routes file with other blank lines
+		if replayChoices == nil {
+			var doc any
+			if json.Unmarshal([]byte(base.Spec), &doc) == nil {
+				mini, _ := json.Marshal(doc)
+				reind, _ := json.MarshalIndent(doc, "", "        ")
+				for vi, stale := range []struct{ name, spec, routes string }{
+					{"minified copy of the same document", string(mini), base.Routes + "\n\n"},
+					{"re-indented copy with sorted keys", string(reind) + "\n", strings.Replace(base.Routes, "\n\n", "\n", 1)},
+				} {
+					work := fmt.Sprintf("%s-stale%d", dir, vi)
+					copyDir(dir, work)
+					os.MkdirAll(filepath.Join(work, "dist/routes"), 0o755)
+					os.WriteFile(filepath.Join(work, "dist/openapi.json"), []byte(stale.spec), 0o644)
+					os.WriteFile(filepath.Join(work, "dist/routes/gleece.routes.go"), []byte(stale.routes), 0o644)
+					res := scen.RunCLIBin(scen.CLIPath(false), work, []string{"generate", "spec-and-routes", "-c", "./gleece.config.json"}, 180)
+					os.RemoveAll(work)
+					run.AddValidated(1)
+					feat := map[string]string{"stale-output": stale.name}
+					for k, v := range p.Feat {
+						feat[k] = v
+					}
+					cs := map[string]any{"project": p.Name, "choices": map[string]int{}, "stale_output": stale.name}
+					if res.Exit != 0 {
+						run.Report(core.Violation{Oracle: "output-independent-of-previous-files", Features: feat, What: "the command fails over a " + stale.name + ": " + tail(res.Output), Case: cs})
+					} else if res.Files["dist/openapi.json"] != base.Spec {
+						run.Report(core.Violation{Oracle: "output-independent-of-previous-files", Features: feat, What: "over a " + stale.name + " the spec file is not the bytes a clean directory gets: " + diffLines(base.Spec, res.Files["dist/openapi.json"]), Case: cs})
+					} else if res.Files["dist/routes/gleece.routes.go"] != base.Routes {
+						run.Report(core.Violation{Oracle: "output-independent-of-previous-files", Features: feat, What: "over an existing routes file with other blank lines the routes file is not the bytes a clean directory gets: " + diffLines(base.Routes, res.Files["dist/routes/gleece.routes.go"]), Case: cs})
+					}
+				}
 			}
 		}
 		run.Set(fmt.Sprintf("project_%d", pi), fmt.Sprintf("%s: %d choice points (%s)", p.Name, len(pts), sites(pts)))
@@ -589,7 +624,7 @@ func Main(tier, replay string) {
 	run.Sample(map[string]any{"project": projects[0].Name, "choices": map[string]int{"0": 1}, "meaning": "first choice point returns its 2nd permutation, all others canonical"})
 	run.Bound = fmt.Sprintf("%d projects (3 controllers over 2 packages and 3 files, types from 2 further packages; glob order reversed; same-named types%s); every permutation at every hooked choice point with <= %d points deviating from canonical order; %s runs of the unhooked binary per project; every sequence of %d route generations over 5 configurations (plain, two template-extension sets, all switches on, another engine) in one process, each step compared with a fresh process", len(projects), map[string]string{"quick": "", "thorough": "; 2 more engines"}[tier], bound, map[string]string{"quick": "6", "thorough": "20"}[tier], map[string]int{"quick": 3, "thorough": 4}[tier])
 	run.Rule = "state = one execution of the real CLI in a fresh process under a vector of iteration-order choices; transition = one such execution; validated = byte comparisons of spec and routes files with the canonical execution (plus repeated unhooked executions and cross-engine spec comparison)"
-	run.Assumptions = []string{"Go's map iteration order is over-approximated by all permutations, at the four hooked sites only; unhooked sources are only detected if they vary during the run", "generation date comment is skipped by configuration, except for one dated run per project that must differ by exactly that comment line"}
+	run.Assumptions = []string{"Go's map iteration order is over-approximated by all permutations, at the four hooked sites only; unhooked sources are only detected if they vary during the run", "two runs per project start over pre-existing output files that are equivalent but not byte-identical", "generation date comment is skipped by configuration, except for one dated run per project that must differ by exactly that comment line"}
 	os.RemoveAll(scratch)
 	run.Finish()
 }
